@@ -34,6 +34,7 @@ type RunResult struct {
 	Switches   int
 	ND         bool                  // the run passed a site that follows Go's map iteration order (see run.Runner.ND)
 	Aborted    bool                  // the run could not be judged to the end for reasons outside this property
+	Trace      []int                 // scheduled runs: the task chosen at each scheduling decision
 	Witness    map[string]core.Fault // for image-based failures: violation signature -> explicit fault reproducing the first image that shows it
 }
 
@@ -231,6 +232,12 @@ func sameFailure(vs []run.Violation, sig string) bool {
 // violation signature.
 func Shrink(s *Spec, seed uint64, p *prog.Program, sig string, budget time.Duration) *prog.Program {
 	deadline := time.Now().Add(budget)
+	if len(p.Schedule) > 0 {
+		// candidates are judged under the seed-derived schedule; the schedule
+		// actually taken is recorded again for the final program
+		p = p.Clone()
+		p.Schedule = nil
+	}
 	exec := s.Exec
 	if s.Deep != nil && hasSnapFaults(p) {
 		exec = s.Deep
